@@ -759,6 +759,26 @@ Qed.
 
 End AttLog.
 
+(* ------------------------------------------------------------------ the attempt function along the log *)
+
+Definition at_slot (a : attempt) : nat := match a with AtFail s _ => s | AtOk m => m_src m end.
+
+Section Trace.
+Variable E : Type.
+Variable att : E -> nat -> Z -> E * bool.
+
+(* att folded over a log: consulted once per entry, in order, with the entry's source slot and
+   destination block; the entry is AtOk exactly when att answered true *)
+Inductive strace : E -> list attempt -> E -> Prop :=
+| st_nil e : strace e [] e
+| st_fail e s d tl e' : snd (att e s d) = false -> strace (fst (att e s d)) tl e' -> strace e (AtFail s d :: tl) e'
+| st_ok e m tl e' : snd (att e (m_src m) (m_dstblk m)) = true -> strace (fst (att e (m_src m) (m_dstblk m))) tl e' ->
+                    strace e (AtOk m :: tl) e'.
+
+Lemma strace_app e1 l1 e2 l2 e3 : strace e1 l1 e2 -> strace e2 l2 e3 -> strace e1 (l1 ++ l2) e3.
+Proof. induction 1; intros H2; cbn [app]; [exact H2|apply st_fail; auto|apply st_ok; auto]. Qed.
+End Trace.
+
 (* ================================================================== the parameters of the generalisation *)
 
 Section Gen.
@@ -1914,6 +1934,260 @@ Proof.
 Qed.
 
 End AttF3.
+
+(* ------------------------------------------------------------------ the log is the trace of att
+   For ANY attempt function: att is consulted exactly once per logged attempt, in log order, the
+   environment returned is att folded over the log, an attempt is logged AtOk exactly when att
+   answered true (metadata.Alloc after a granted request never fails: request_alloc_cfg), and the
+   source slot of every logged attempt - refused ones too - is a non-temporary entry of the table
+   the pass started from. *)
+Section AttTrace.
+Variable Env : Type.
+Variable att : Env -> nat -> Z -> Env * bool.
+
+Lemma alloc_in_f_tr t size align kind strat mo tag env slot dst :
+  TInv t -> bcfg t -> Inv2 t -> pow2 align -> Kok kind ->
+  match alloc_in_f Env att t size align kind strat mo tag env slot dst with
+  | (AIOk _ _, env', _) => forall m, m_src m = slot -> m_dstblk m = dst -> strace Env att env [AtOk m] env'
+  | (AINo _, env', fl) => strace Env att env (fail_log fl slot dst) env'
+  | (AIPanic, _, _) => True
+  end.
+Proof.
+  intros HT Hg HI2 Hpa Hk. unfold alloc_in_f.
+  destruct (create_request t size align false kind strat mo) as [t1 r| | |] eqn:Hcr; try (cbn [fail_log]; apply st_nil); [|exact I].
+  destruct (request_alloc_cfg _ _ _ _ _ _ tag _ _ HT Hg HI2 Hpa Hk Hcr) as (_ & _ & _ & _ & _ & t2 & Hal & _).
+  destruct (att env slot dst) as [env' ok] eqn:Ea. destruct ok.
+  - rewrite Hal. intros m <- <-. apply st_ok; rewrite Ea; [reflexivity|apply st_nil].
+  - cbn [fail_log]. apply st_fail; rewrite Ea; [reflexivity|apply st_nil].
+Qed.
+
+Lemma alloc_lower_f_tr t size align kind offset tag env slot dst :
+  TInv t -> bcfg t -> Inv2 t -> pow2 align -> Kok kind ->
+  match alloc_lower_f Env att t size align kind offset tag env slot dst with
+  | (AIOk _ _, env', _) => forall m, m_src m = slot -> m_dstblk m = dst -> strace Env att env [AtOk m] env'
+  | (AINo _, env', fl) => strace Env att env (fail_log fl slot dst) env'
+  | (AIPanic, _, _) => True
+  end.
+Proof.
+  intros HT Hg HI2 Hpa Hk. unfold alloc_lower_f.
+  destruct (create_request t size align false kind 4 offset) as [t1 r| | |] eqn:Hcr; try (cbn [fail_log]; apply st_nil); try exact I.
+  destruct (request_alloc_cfg _ _ _ _ _ _ tag _ _ HT Hg HI2 Hpa Hk Hcr) as (_ & _ & _ & _ & _ & t2 & Hal & _).
+  destruct (rq_block r <? offset); [|cbn [fail_log]; apply st_nil].
+  destruct (att env slot dst) as [env' ok] eqn:Ea. destruct ok.
+  - rewrite Hal. intros m <- <-. apply st_ok; rewrite Ea; [reflexivity|apply st_nil].
+  - cbn [fail_log]. apply st_fail; rewrite Ea; [reflexivity|apply st_nil].
+Qed.
+
+Lemma fail_log_slot fl slot dst : Forall (fun a => at_slot a = slot) (fail_log fl slot dst).
+Proof. destruct fl; cbn [fail_log]; [constructor; [reflexivity|constructor]|constructor]. Qed.
+
+Lemma alloc_other_f_tr cands size align kind slot : forall st env,
+  WF st -> pow2 align -> Kok kind -> rnd kind size = size ->
+  match alloc_other_f Env att st cands size align kind env slot with
+  | (AOFound _ _ id _, env', lg) =>
+    (forall m, m_src m = slot -> m_dstblk m = id -> strace Env att env (lg ++ [AtOk m]) env') /\
+    Forall (fun a => at_slot a = slot) lg
+  | (AONone _, env', lg) => strace Env att env lg env' /\ Forall (fun a => at_slot a = slot) lg
+  | (AOPanic _, env', lg) => strace Env att env lg env' /\ Forall (fun a => at_slot a = slot) lg
+  end.
+Proof.
+  induction cands as [|[idx id] rest IH]; intros st env HW Hpa Hk Hst; cbn [alloc_other_f].
+  - split; [apply st_nil|constructor].
+  - destruct (find_id id (d_blocks st)) as [t|] eqn:Hf; [|split; [apply st_nil|constructor]].
+    destruct (wb_tinv _ (wf_b _ HW) _ _ Hf) as (HT & Hg & HI2).
+    destruct (may_have_free t kind size); [|apply IH; auto].
+    pose proof (alloc_in_f_spec Env att t size align kind 0 max_int (tmp_tag st) env slot id HT Hg HI2 Hpa Hk Hst) as Hs.
+    pose proof (alloc_in_f_tr t size align kind 0 max_int (tmp_tag st) env slot id HT Hg HI2 Hpa Hk) as Ht.
+    destruct (alloc_in_f Env att t size align kind 0 max_int (tmp_tag st) env slot id) as [[a env'] fl].
+    destruct a as [t' off|t'|]; [| |destruct Hs].
+    + split; [intros m H1 H2; cbn [app]; apply Ht; auto|constructor].
+    + destruct Hs as (HT' & Hg' & HI2' & Hl' & Hsz').
+      assert (HW2 : WF (set_block st id t')) by (eapply wf_set_same; eauto).
+      specialize (IH (set_block st id t') env' HW2 Hpa Hk Hst).
+      destruct (alloc_other_f Env att (set_block st id t') rest size align kind env' slot) as [[r env''] lg].
+      destruct r as [st' i2 id2 off2|st'|st'].
+      * destruct IH as (A & B). split.
+        -- intros m H1 H2. rewrite <- app_assoc. eapply strace_app; [exact Ht|apply A; auto].
+        -- apply Forall_app. split; [apply fail_log_slot|exact B].
+      * destruct IH as (A & B). split; [eapply strace_app; eauto|apply Forall_app; split; [apply fail_log_slot|exact B]].
+      * destruct IH as (A & B). split; [eapply strace_app; eauto|apply Forall_app; split; [apply fail_log_slot|exact B]].
+Qed.
+
+Lemma lower_if_f_tr cs bi id h slot e env :
+  WF (cs_st cs) -> entry (cs_st cs) slot = Some e ->
+  strace Env att env (log_f (lower_if_f Env att cs bi id h slot e env)) (env_f (lower_if_f Env att cs bi id h slot e env)) /\
+  Forall (fun a => at_slot a = slot) (log_f (lower_if_f Env att cs bi id h slot e env)).
+Proof.
+  intros HW Hent. unfold lower_if_f.
+  destruct (find_id id (d_blocks (cs_st cs))) as [t|] eqn:Hf; [|unfold log_f, env_f; cbn [fst snd]; split; [apply st_nil|constructor]].
+  destruct (negb (h =? 0) && may_have_free t (u_kind e) (u_size e)); [|unfold log_f, env_f; cbn [fst snd]; split; [apply st_nil|constructor]].
+  destruct (wf_own _ HW _ _ Hent) as (_ & Hpa & Hs1).
+  destruct (wf_rnd _ HW _ _ Hent) as (Hrs & Hkk).
+  destruct (wb_tinv _ (wf_b _ HW) _ _ Hf) as (HT & Hg & HI2).
+  unfold try_lower_f.
+  pose proof (alloc_lower_f_spec Env att t (u_size e) (u_align e) (u_kind e) h (tmp_tag (cs_st cs)) env slot id HT Hg HI2 Hpa Hs1 Hkk Hrs) as Hs.
+  pose proof (alloc_lower_f_tr t (u_size e) (u_align e) (u_kind e) h (tmp_tag (cs_st cs)) env slot id HT Hg HI2 Hpa Hkk) as Ht.
+  destruct (alloc_lower_f Env att t (u_size e) (u_align e) (u_kind e) h (tmp_tag (cs_st cs)) env slot id) as [[a env'] fl].
+  destruct a as [t' off|t'|]; [| |destruct Hs].
+  - destruct (commit_move _ _ _ _ _ _ _ _) as [cs' r]. unfold log_f, env_f; cbn [fst snd].
+    split; [apply Ht; reflexivity|constructor; [reflexivity|constructor]].
+  - unfold log_f, env_f; cbn [fst snd]. split; [exact Ht|apply fail_log_slot].
+Qed.
+
+Lemma handle_alloc_f_tr algo ix cs bi id h slot e env :
+  WF (cs_st cs) -> entry (cs_st cs) slot = Some e ->
+  strace Env att env (log_f (handle_alloc_f Env att algo ix cs bi id h slot e env))
+         (env_f (handle_alloc_f Env att algo ix cs bi id h slot e env)) /\
+  Forall (fun a => at_slot a = slot) (log_f (handle_alloc_f Env att algo ix cs bi id h slot e env)).
+Proof.
+  intros HW Hent. unfold handle_alloc_f.
+  destruct (algo =? 0); [apply lower_if_f_tr; auto|].
+  destruct (wf_own _ HW _ _ Hent) as (_ & Hpa & Hs1).
+  destruct (wf_rnd _ HW _ _ Hent) as (Hrs & Hkk).
+  pose proof (alloc_other_f_spec Env att (cs_st cs) (firstn (Z.to_nat bi) ix) (u_size e) (u_align e) (u_kind e) env slot HW Hpa Hkk Hrs) as Hs.
+  pose proof (alloc_other_f_tr (firstn (Z.to_nat bi) ix) (u_size e) (u_align e) (u_kind e) slot (cs_st cs) env HW Hpa Hkk Hrs) as Ht.
+  destruct (alloc_other_f Env att (cs_st cs) (firstn (Z.to_nat bi) ix) (u_size e) (u_align e) (u_kind e) env slot) as [[a env'] lg].
+  assert (Hfound : forall st' idx did off, a = AOFound st' idx did off ->
+            forall X : cstate * wres,
+            strace Env att env (log_f (let '(cs', r) := X in ((cs', env', lg ++ [AtOk (commit_mv st' slot e bi idx did off)]), r)))
+                   (env_f (let '(cs', r) := X in ((cs', env', lg ++ [AtOk (commit_mv st' slot e bi idx did off)]), r))) /\
+            Forall (fun a => at_slot a = slot) (log_f (let '(cs', r) := X in ((cs', env', lg ++ [AtOk (commit_mv st' slot e bi idx did off)]), r)))).
+  { intros st' idx did off -> [cs' r]. unfold log_f, env_f; cbn [fst snd]. destruct Ht as (A & B).
+    split; [apply A; reflexivity|apply Forall_app; split; [exact B|constructor; [reflexivity|constructor]]]. }
+  destruct (algo =? 1).
+  { destruct (bi =? 0); [unfold log_f, env_f; cbn [fst snd]; split; [apply st_nil|constructor]|].
+    destruct a as [st' idx did off|st'|st'].
+    - apply (Hfound st' idx did off eq_refl).
+    - unfold log_f, env_f; cbn [fst snd]. exact Ht.
+    - unfold log_f, env_f; cbn [fst snd]. exact Ht. }
+  destruct (0 <? bi); [|apply lower_if_f_tr; auto].
+  destruct a as [st' idx did off|st'|st'].
+  - apply (Hfound st' idx did off eq_refl).
+  - destruct Hs as (HW1 & He1 & _). destruct Ht as (A & B).
+    assert (Hent' : entry st' slot = Some e) by (eapply ext_entry; eauto).
+    pose proof (lower_if_f_tr (cs_set_st cs st') bi id h slot e env' HW1 Hent') as (C & D).
+    destruct (lower_if_f Env att (cs_set_st cs st') bi id h slot e env') as [[[cs' env''] lg2] r].
+    unfold log_f, env_f in *; cbn [fst snd] in *.
+    split; [eapply strace_app; eauto|apply Forall_app; split; auto].
+  - unfold log_f, env_f; cbn [fst snd]. exact Ht.
+Qed.
+
+Lemma visit_f_tr algo ix cs bi id h env :
+  WF (cs_st cs) ->
+  strace Env att env (log_f (visit_f Env att algo ix cs bi id h env)) (env_f (visit_f Env att algo ix cs bi id h env)) /\
+  Forall (fun a => exists e, entry (cs_st cs) (at_slot a) = Some e /\ u_temp e = false) (log_f (visit_f Env att algo ix cs bi id h env)).
+Proof.
+  intros HW. unfold visit_f.
+  destruct (find_id id (d_blocks (cs_st cs))) as [t|] eqn:Hf; [|unfold log_f, env_f; cbn [fst snd]; split; [apply st_nil|constructor]].
+  destruct (get_move_data (cs_st cs) t h) as [| |slot e] eqn:Hmd; try (unfold log_f, env_f; cbn [fst snd]; split; [apply st_nil|constructor]).
+  destruct (get_move_data_spec _ _ _ _ _ _ HW Hf Hmd) as (Hent & Htemp & _).
+  destruct (check_counters (cs_pass cs) (u_size e)) as [p1 c0].
+  destruct c0; try (unfold log_f, env_f; cbn [fst snd]; split; [apply st_nil|constructor]).
+  destruct (handle_alloc_f_tr algo ix (cs_set_pass cs p1) bi id h slot e env HW Hent) as (A & B).
+  split; [exact A|]. eapply Forall_impl; [|exact B]. intros a Ha. rewrite Ha. exists e. auto.
+Qed.
+
+(* a non-temporary entry of a state of the pass is an entry of the table the pass started from *)
+Lemma cinv_slot st0 ms0 p0 ix cs new s e :
+  CInv st0 ms0 p0 ix cs new -> entry (cs_st cs) s = Some e -> u_temp e = false -> entry st0 s = Some e.
+Proof.
+  intros HC He Ht. destruct (lt_dec s (length (d_table st0))) as [Hlt|Hge].
+  - destruct (ci_ext _ _ _ _ _ _ HC) as (_ & _ & _ & Hsame & _). rewrite <- (Hsame s Hlt). exact He.
+  - assert (Hle : (length (d_table st0) <= s)%nat) by (apply Nat.nlt_ge; exact Hge).
+    rewrite (ci_newtemps _ _ _ _ _ _ HC s e Hle He) in Ht. discriminate Ht.
+Qed.
+
+Definition slot_ok (st0 : dstate) (a : attempt) : Prop :=
+  exists e, entry st0 (at_slot a) = Some e /\ u_temp e = false.
+
+Lemma walk_block_f_tr st0 ms0 p0 ids algo fuel : forall cs new bi id h env,
+  CInv st0 ms0 p0 (indexed_from 0 ids) cs new -> In (bi, id) (indexed_from 0 ids) -> Forall (key_above bi h) new ->
+  pass_running (cs_pass cs) ->
+  strace Env att env (log_f (walk_block_f Env att fuel algo (indexed_from 0 ids) cs bi id h env))
+         (env_f (walk_block_f Env att fuel algo (indexed_from 0 ids) cs bi id h env)) /\
+  Forall (slot_ok st0) (log_f (walk_block_f Env att fuel algo (indexed_from 0 ids) cs bi id h env)).
+Proof.
+  induction fuel as [|f IH]; intros cs new bi id h env HC Hix Hkeys Hrun; cbn [walk_block_f].
+  - unfold log_f, env_f; cbn [fst snd]. split; [apply st_nil|constructor].
+  - pose proof (visit_f_spec Env att st0 ms0 p0 ids cs new algo bi id h env HC Hix Hkeys Hrun) as Hv.
+    pose proof (visit_f_tr algo (indexed_from 0 ids) cs bi id h env (ci_wf _ _ _ _ _ _ HC)) as Ht.
+    destruct (visit_f Env att algo (indexed_from 0 ids) cs bi id h env) as [[[cs' env'] lg] r].
+    unfold res_f in Hv. unfold log_f, env_f in Ht. cbn [fst snd] in Hv, Ht.
+    destruct Hv as (add & HC' & Hk' & _ & Hrun'). cbn [fst snd] in *. destruct Ht as (T1 & T2).
+    assert (T2' : Forall (slot_ok st0) lg).
+    { eapply Forall_impl; [|exact T2]. intros a (e & E1 & E2). exists e. split; [exact (cinv_slot _ _ _ _ _ _ _ _ HC E1 E2)|exact E2]. }
+    destruct r as [| |w]; try (unfold log_f, env_f; cbn [fst snd]; split; [exact T1|exact T2']).
+    destruct (find_id id (d_blocks (cs_st cs'))) as [t'|]; [|unfold log_f, env_f; cbn [fst snd]; split; [exact T1|exact T2']].
+    destruct (next_alloc t' h) as [h'|] eqn:Hn; [|unfold log_f, env_f; cbn [fst snd]; split; [exact T1|exact T2']].
+    apply next_alloc_lt in Hn.
+    assert (Hk2 : Forall (key_above bi h') (new ++ add)).
+    { eapply Forall_impl; [|exact Hk']. intros m [K|K]; [left; exact K|right; lia]. }
+    destruct (IH cs' (new ++ add) bi id h' env' HC' Hix Hk2 (Hrun' eq_refl)) as (R1 & R2).
+    destruct (walk_block_f Env att f algo (indexed_from 0 ids) cs' bi id h' env') as [[[cs'' env''] lg2] r2].
+    unfold log_f, env_f in *; cbn [fst snd] in *.
+    split; [eapply strace_app; eauto|apply Forall_app; split; auto].
+Qed.
+
+Lemma walk_blocks_f_tr st0 ms0 p0 ids algo fuel srcs : forall cs new env,
+  CInv st0 ms0 p0 (indexed_from 0 ids) cs new -> (forall x, In x srcs -> In x (indexed_from 0 ids)) -> idx_desc srcs ->
+  (forall m x, In m new -> In x srcs -> fst x < m_srcidx m) -> pass_running (cs_pass cs) ->
+  strace Env att env (log_f (walk_blocks_f Env att fuel algo (indexed_from 0 ids) cs srcs env))
+         (env_f (walk_blocks_f Env att fuel algo (indexed_from 0 ids) cs srcs env)) /\
+  Forall (slot_ok st0) (log_f (walk_blocks_f Env att fuel algo (indexed_from 0 ids) cs srcs env)).
+Proof.
+  induction srcs as [|[bi id] rest IH]; intros cs new env HC Hin Hdesc Habove Hrun; cbn [walk_blocks_f].
+  - unfold log_f, env_f; cbn [fst snd]. split; [apply st_nil|constructor].
+  - destruct (idx_desc_tail _ _ Hdesc) as (Hdesc' & Hlt).
+    assert (Hix : In (bi, id) (indexed_from 0 ids)) by (apply Hin; left; reflexivity).
+    assert (Hin' : forall x, In x rest -> In x (indexed_from 0 ids)) by (intros x Hx; apply Hin; right; exact Hx).
+    destruct (find_id id (d_blocks (cs_st cs))) as [t|]; [|unfold log_f, env_f; cbn [fst snd]; split; [apply st_nil|constructor]].
+    destruct (list_begin t) as [|h|]; [|  |unfold log_f, env_f; cbn [fst snd]; split; [apply st_nil|constructor]].
+    + eapply IH; eauto. intros m x Hm Hx. apply Habove; [exact Hm|right; exact Hx].
+    + assert (Hk : Forall (key_above bi h) new).
+      { apply Forall_forall. intros m Hm. left. apply (Habove m (bi, id) Hm). left. reflexivity. }
+      destruct (walk_block_f_spec Env att st0 ms0 p0 ids algo fuel cs new bi id h env HC Hix Hk Hrun) as (add & R1 & R2 & _ & R4).
+      destruct (walk_block_f_tr st0 ms0 p0 ids algo fuel cs new bi id h env HC Hix Hk Hrun) as (T1 & T2).
+      destruct (walk_block_f Env att fuel algo (indexed_from 0 ids) cs bi id h env) as [[[cs' env'] lg] r].
+      unfold res_f in R1, R2, R4. unfold log_f, env_f in T1, T2. cbn [fst snd] in R1, R2, R4, T1, T2.
+      destruct r as [| |w]; try (unfold log_f, env_f; cbn [fst snd]; split; [exact T1|exact T2]).
+      assert (Habove' : forall m x, In m (new ++ add) -> In x rest -> fst x < m_srcidx m).
+      { intros m x Hm Hx. rewrite Forall_forall in R2. specialize (R2 _ Hm). specialize (Hlt _ Hx). cbn in Hlt. lia. }
+      destruct (IH cs' (new ++ add) env' R1 Hin' Hdesc' Habove' (R4 eq_refl)) as (S1 & S2).
+      destruct (walk_blocks_f Env att fuel algo (indexed_from 0 ids) cs' rest env') as [[[cs'' env''] lg2] r2].
+      unfold log_f, env_f in *; cbn [fst snd] in *.
+      split; [eapply strace_app; eauto|apply Forall_app; split; auto].
+Qed.
+
+Theorem collect_moves_f_strace st c p env :
+  WF st -> pass_running p ->
+  let X := collect_moves_f Env att st c p env in
+  strace Env att env (log_f X) (env_f X) /\
+  Forall (fun a => exists e, entry st (at_slot a) = Some e /\ u_temp e = false) (log_f X).
+Proof.
+  intros HW Hrun X. unfold X, collect_moves_f.
+  set (cs0 := mkCS st (c_moves c) p).
+  pose proof (cinv_init st (c_moves c) p (indexed st) HW Hrun) as HC0. fold cs0 in HC0.
+  assert (Hwalk : forall algo,
+    let Y := walk_blocks_f Env att (walk_fuel st) algo (indexed st) cs0 (rev (skipn (Z.to_nat (c_immovable c)) (indexed st))) env in
+    strace Env att env (log_f Y) (env_f Y) /\ Forall (slot_ok st) (log_f Y)).
+  { intros algo. unfold indexed in *.
+    assert (H1 : forall x, In x (rev (skipn (Z.to_nat (c_immovable c)) (indexed_from 0 (map fst (d_blocks st))))) ->
+                           In x (indexed_from 0 (map fst (d_blocks st)))) by (intros x; apply srcs_in).
+    assert (H3 : forall (m : move) (x : Z * Z), In m [] -> In x (rev (skipn (Z.to_nat (c_immovable c)) (indexed_from 0 (map fst (d_blocks st))))) ->
+                                                fst x < m_srcidx m) by (intros m x []).
+    exact (walk_blocks_f_tr st (c_moves c) p (map fst (d_blocks st)) algo (walk_fuel st)
+             (rev (skipn (Z.to_nat (c_immovable c)) (indexed_from 0 (map fst (d_blocks st))))) cs0 [] env HC0
+             H1 (srcs_desc _ _ _) H3 Hrun). }
+  assert (Hnil : forall r0 : wres,
+            strace Env att env (log_f ((cs0, env, @nil attempt), r0)) (env_f ((cs0, env, @nil attempt), r0)) /\
+            Forall (slot_ok st) (log_f ((cs0, env, @nil attempt), r0))).
+  { intros r0. unfold log_f, env_f; cbn [fst snd]. split; [apply st_nil|constructor]. }
+  destruct (1 <? zlen (d_blocks st)).
+  - destruct (c_algo c =? 1); [apply Hwalk|]. destruct (c_algo c =? 2); [apply Hwalk|apply Hnil].
+  - destruct ((zlen (d_blocks st) =? 1) && negb (c_algo c =? 1)); [apply Hwalk|apply Hnil].
+Qed.
+
+End AttTrace.
 
 (* the planner whose commits always succeed (Defrag.collect_moves) is the instance att_ok *)
 Lemma collect_moves_inv st c p :
@@ -4713,6 +4987,7 @@ Proof. vm_compute. auto. Qed.
 Print Assumptions collect_moves_f_inv.
 Print Assumptions collect_f_never_panics.
 Print Assumptions collect_moves_f_log.
+Print Assumptions collect_moves_f_strace.
 Print Assumptions collect_moves_f_all_ok.
 Print Assumptions collect_moves_f_P.
 Print Assumptions wstep_f_no_failures.
